@@ -41,6 +41,12 @@ CORPUS = [
          script=[['d', 'xx'], ['E']]),
     dict(mode='b', ops=[dict(k='x', W=None, pats=[['s', 'b'], ['T']])], script=[['d', 'aa'], ['X'], ['d', 'b']]),
     dict(mode='b', ops=[dict(k='x', W=None, pats=[['s', 'b']]), dict(k='x', W=None, pats=[['s', 'a']])], script=[['X'], ['d', 'ab']]),
+    # expect_list() on one list object that the caller edits between the calls (EOF appended, TIMEOUT inserted, EOF removed)
+    dict(mode='b', ops=[dict(k='r', W=None, pats=[['re', 's', A]], list_api=True, compiled=True), dict(k='r', W=None, pats=[['re', 's', B_], ['E']], list_api=True, compiled=True)],
+         script=[['d', 'xa'], ['d', 'q'], ['E']]),
+    dict(mode='b', ops=[dict(k='r', W=None, pats=[['re', 's', A], ['E']], list_api=True, compiled=True), dict(k='r', W=None, pats=[['T'], ['re', 's', B_]], list_api=True, compiled=True),
+                        dict(k='r', W=None, pats=[['re', 's', B_]], list_api=True, compiled=True)],
+         script=[['d', 'a'], ['d', 'q'], ['T'], ['E']]),
 ]
 
 
